@@ -259,6 +259,11 @@ def draw_system(rng, seed: int, prop: str, *, families=("single",) * 6 + ("cross
     # then decided by the inner (unseeded) solver's random sketch, so the bootstrapper needs enough samples
     enough = name == "EOF" and all(gen.n_samples_total(descs[k]) >= 4 * int(params["n_modes"]) + 4 for k in ("D0", "D1", "D2"))
     cfg["boot_params"] = {"n_bootstraps": rng.randint(2, 4), "seed": rng.randrange(1000)} if name == "EOF" and not lazy and not wide and enough else None
+    if dask_eager and cfg["boot_params"]:
+        # moderate spectra: neither steep (accuracy of dask's randomised solver) nor flat (eigenvector sensitivity)
+        for d in descs.values():
+            if d.get("kind") != "weights" and "ratio" in d:
+                d["ratio"] = rng.choice([0.7, 0.8])
     cfg["sched"] = sched.Config(W=rng.choice([1, 1, 2, 3, 4, 8]), reexec=rng.choice([0, 0, 0.05, 0.15]),
                                 transient=rng.choice([0, 0, 0.05]), stall=rng.choice([0, 0.1]),
                                 purity=1.0).to_json()
